@@ -155,6 +155,17 @@ def atDollar : List Sym → Bool
 
 def scaleLetters : List Nat := [75, 77, 71, 84, 80, 69]   -- K M G T P E
 
+/-- the part of the size pattern after `(\d+)\s*`: `([KMGTPE]?[I]?[B]?)$`, then
+    `if suffix.endswith("B"): suffix = suffix[:-1]` and `multiplier[suffix]` -/
+def sizeMult (tbl : List (List Nat × Nat)) (r2 : List Sym) : Res Nat :=
+  let a := optLetter scaleLetters r2
+  let b := optLetter [73] a.2
+  let c := optLetter [66] b.2
+  if !atDollar c.2 then .valueError else
+  match lookupWord tbl (wordSyms (a.1 ++ b.1)) with
+  | some k => .ok k
+  | Option.none => .keyError
+
 /-- `abbreviate.parse_abbreviated_size(s)` for a `str` argument (`None` is treated like ""):
     `re.match(r"^(\d+)\s*([KMGTPE]?[I]?[B]?)$", s.upper())`, strip a final "B" from the suffix,
     `int(number) * multiplier[suffix]`. -/
@@ -164,14 +175,9 @@ def parseSizeWith (tbl : List (List Nat × Nat)) (s : List Sym) : Res Nat :=
   let ds := (takeDigits u).1
   let r1 := (takeDigits u).2
   if ds.isEmpty then .valueError else
-  let r2 := dropWs r1
-  let a := optLetter scaleLetters r2
-  let b := optLetter [73] a.2
-  let c := optLetter [66] b.2
-  if !atDollar c.2 then .valueError else
-  match lookupWord tbl (wordSyms (a.1 ++ b.1)) with
-  | some k => .ok (num ds * k)
-  | Option.none => .keyError
+  match sizeMult tbl (dropWs r1) with
+  | .ok k => .ok (num ds * k)
+  | e => e
 
 def parseSize (s : List Sym) : Res Nat := parseSizeWith Config.size_multipliers s
 
@@ -264,9 +270,5 @@ def abbreviateSpace (si : Bool) (s : Nat) : List Sym :=
     (digitsOf (h / 100)).map Sym.dig ++ [.asc 46]
       ++ [Sym.dig ⟨h / 10 % 10, Nat.mod_lt _ (by decide)⟩, Sym.dig ⟨h % 10, Nat.mod_lt _ (by decide)⟩]
       ++ [.ws, .asc (scalePrefix i)] ++ (if si then [] else [.asc 105]) ++ [.asc 66]
-
-/-- the number a reader takes a printed size to denote, times 100·(denominator): used to state
-    what "parses back to the same value" can mean; see `Tahoe/Props/C48.lean` -/
-def printedHundredths (si : Bool) (s : Nat) : Nat := hundredths s ((if si then 1000 else 1024) ^ scaleIndex (if si then 1000 else 1024) s)
 
 end Tahoe.Config
